@@ -51,6 +51,7 @@ type VarInfo struct {
 type G struct {
 	rng     *hlib.Rng
 	c11     bool
+	pool    bool // C14: bias towards what stresses the register / continuation / cell pools
 	scopes  [][]*VarInfo
 	ctr     int
 	depth   int // statement nesting
